@@ -710,6 +710,14 @@ fn primitive<'s>(input: &mut &'s str) -> PResult<Option<BoundSet>, SemverParseEr
                     ..
                 },
             ) => BoundSet::at_least(Predicate::Including((major + 1, 0, 0).into())),
+            // `>*` admits nothing, `<=*` and `=*` admit everything.
+            (GreaterThan, Partial { major: None, .. }) => {
+                BoundSet::at_most(Predicate::Excluding((0, 0, 0, 0).into()))
+            }
+            (LessThanEquals, Partial { major: None, .. })
+            | (Exact, Partial { major: None, .. }) => {
+                BoundSet::at_least(Predicate::Including((0, 0, 0).into()))
+            }
             (GreaterThan, partial) => BoundSet::at_least(Predicate::Excluding(partial.into())),
             (
                 LessThan,
@@ -901,10 +909,28 @@ fn partial_version<'s>(input: &mut &'s str) -> PResult<Partial, SemverParseError
     } else {
         (vec![], vec![])
     };
+    // As in node-semver, a wildcard makes every component after it a wildcard too
+    // (`1.x.3` reads as `1.x.x`), and a qualifier after a wildcard is ignored
+    // (`1.2.x-beta` reads as `1.2.x`).
+    let minor = if major.is_some() {
+        minor.flatten()
+    } else {
+        None
+    };
+    let patch = if minor.is_some() {
+        patch.flatten()
+    } else {
+        None
+    };
+    let (pre, build) = if patch.is_some() {
+        (pre, build)
+    } else {
+        (vec![], vec![])
+    };
     Ok(Partial {
         major,
-        minor: minor.flatten(),
-        patch: patch.flatten(),
+        minor,
+        patch,
         pre_release: pre,
         build,
     })
@@ -932,6 +958,9 @@ fn tilde_gt<'s>(input: &mut &'s str) -> PResult<Option<&'s str>, SemverParseErro
 
 fn tilde<'s>(input: &mut &'s str) -> PResult<Option<BoundSet>, SemverParseError<&'s str>> {
     Parser::map((tilde_gt, partial_version), |parsed| match parsed {
+        (_, Partial { major: None, .. }) => {
+            BoundSet::at_least(Predicate::Including((0, 0, 0).into()))
+        }
         (
             Some(_gt),
             Partial {
@@ -1016,6 +1045,9 @@ fn caret<'s>(input: &mut &'s str) -> PResult<Option<BoundSet>, SemverParseError<
     Parser::map(
         preceded((literal("^"), space0), partial_version),
         |parsed| match parsed {
+            Partial { major: None, .. } => {
+                BoundSet::at_least(Predicate::Including((0, 0, 0).into()))
+            }
             Partial {
                 major: Some(0),
                 minor: None,
@@ -1091,13 +1123,7 @@ fn hyphen<'s>(input: &mut &'s str) -> PResult<Option<BoundSet>, SemverParseError
                 minor: None,
                 patch: None,
                 ..
-            } => Predicate::Excluding(Version {
-                major: 0,
-                minor: 0,
-                patch: 0,
-                pre_release: vec![Identifier::Numeric(0)],
-                build: vec![],
-            }),
+            } => Predicate::Unbounded,
             Partial {
                 major: Some(major),
                 minor: None,
@@ -1124,13 +1150,13 @@ fn hyphen<'s>(input: &mut &'s str) -> PResult<Option<BoundSet>, SemverParseError
             }),
             partial => Predicate::Including(partial.into()),
         };
-        let bounds = if let Some(lower) = lower {
-            BoundSet::new(
+        let bounds = match lower {
+            // `* - 1.2.3` has no lower bound
+            Some(lower) if lower.major.is_some() => BoundSet::new(
                 Bound::Lower(Predicate::Including(lower.into())),
                 Bound::Upper(upper),
-            )
-        } else {
-            BoundSet::at_most(upper)
+            ),
+            _ => BoundSet::at_most(upper),
         };
         Ok(bounds)
     }
